@@ -22,7 +22,7 @@ Theorem prefix_open T D f c : wf T D f = true -> tables_ok T D = true -> 0 <= c 
 Proof.
   intros Hwf Hok Hc. cbv zeta.
   destruct (Z.lt_ge_cases c 356) as [Hlt|Hge]; [left; apply open_short; exact Hlt|].
-  destruct (wf_unpack T D f Hwf) as (b0 & rest0 & ts & Et & Hs & Hmeta & Hmodel & Htau & Hid & Hnd).
+  destruct (wf_unpack T D f Hwf) as (b0 & rest0 & ts & Et & Hs & Hmeta & Hmodel & Htau & Hid & Hnd & Htd0).
   destruct (shape_lens f Hs) as (L1 & L2 & Hb).
   assert (HbF : forallb (forallb wf_block) (f_times f) = true) by (rewrite <- forallb_concat; exact Hb).
   rewrite (enc_flat f Hs) in *. unfold flat in *.
